@@ -103,4 +103,27 @@ example :
     runLs (F := Nat) (T := Nat) (V := Nat) (fun f => if f = 2 then .error "boom" else .ok (10 * f)) [(1, 5), (2, 6), (3, 7)]
       = [(5, some 10), (6, none), (7, some 30)] := by decide
 
+/-! ### source selection of the length-scale tracker -/
+
+/-- **An integer source selects that component of a collection — component 0 included** -/
+theorem extract_index {F : Type} (g : List F → F) (fs : List F) (k : Nat) (hk : k < fs.length) :
+    extract (.index k) g ⟨true, fs⟩ = .ok fs[k] := by
+  unfold extract
+  simp [List.getElem?_eq_getElem hk]
+
+theorem extract_asIs {F : Type} (g : List F → F) (f : F) : extract .asIs g ⟨false, [f]⟩ = .ok f := rfl
+
+theorem extract_func {F : Type} (g : List F → F) (st : State F) : extract .func g st = .ok (g st.fields) := rfl
+
+/-- **With a source, the tracker records exactly what the analysis returns for the selected field**
+(NaN when it fails), at the frame's time; the selection itself is the only thing that can raise. -/
+theorem lengthscale_records_selected {F T V : Type} (src : Source) (g : List F → F) (ls : F → Except String V)
+    (st : List (T × Option V)) (state : State F) (t : T) (f : F) (h : extract src g state = .ok f) :
+    lsHandleSrc src g ls st (state, t) = .ok (st ++ [(t, valueOrNaN (ls f))]) := by
+  unfold lsHandleSrc
+  simp only [h]
+
+example : extract (F := Nat) (.index 0) (fun _ => 7) ⟨true, [3, 4]⟩ = .ok 3 ∧
+    extract (F := Nat) .asIs (fun _ => 7) ⟨true, [3, 4]⟩ = .error "TypeError" := by decide
+
 end DV.C14
